@@ -15,6 +15,7 @@ the derivation (parse(s).*_used, evaluator(s, ...)[1], get_used_vars, DependentS
 """
 import itertools
 import math
+import os
 import multiprocessing
 import random
 import re
@@ -542,7 +543,8 @@ def eval_histories(tag, seqs, results, shard, on_codes):
                 'Definition views : list iview :=\n  [ %s ].\n' % '\n  ; '.join(view_term(v) for v in views.items) +
                 'Definition states : list istate :=\n  [ %s ].\n' % '\n  ; '.join(state_term(s) for s in states.items) +
                 'Definition verif_cases : list (list (nat * nat * nat)) :=\n  [ %s ].\n' % '\n  ; '.join(cases) + RUNNER)
-        files.append(('%s_%04d' % (tag, k // shard), text))
+        files.append(('%s_p%d_%04d' % (tag, os.getpid(), k // shard), text))
+
     def handler(out):
         codes, errors = {}, []
         for (name, rc, txt), k in zip(out, range(0, len(seqs), shard)):
@@ -567,6 +569,13 @@ class Deferred(object):
     def flush(self):
         jobs, self.jobs = self.jobs, []
         out = core.run_case_files([f for files, _ in jobs for f in files])
+        # file names carry the pid (two checks of C10 may run at once); evaluated files are removed, failed ones kept
+        for name, rc, txt in out:
+            if rc == 0:
+                try:
+                    os.remove(os.path.join(core.CASES, name + '.v'))
+                except OSError:
+                    pass
         i = 0
         for files, handler in jobs:
             handler(out[i:i + len(files)])
@@ -1030,7 +1039,7 @@ Fixpoint verif_codes (l : list (str * expr * sexp * names)) (i : Z) : list (Z * 
     shard = max(100, (len(terms) + NFILES[0] - 1) // NFILES[0])
     files = []
     for k in range(0, len(terms), shard):
-        files.append(('c10_names_%04d' % (k // shard),
+        files.append(('c10_names_p%d_%04d' % (os.getpid(), k // shard),
                       header + 'Definition verif_cases : list (str * expr * sexp * names) :=\n  [ %s ].\n'
                       % '\n  ; '.join(terms[k:k + shard]) + 'Eval vm_compute in (verif_codes verif_cases 0).\n'))
     def handler(out):
